@@ -21,9 +21,10 @@ META = {
   "p_shm_free, p_shm_new again, where a first p_shm_new that fails is tolerated if the final one succeeds",
   "leftover_any_state: the kernel state of the name before the clean-up is constructed directly in the model (segment absent / any size and bytes, lock semaphore absent / value 0..2, "
   "nobody attached) instead of being produced by kill sequences; zero-length leftovers are the open finding C07_crash_zero_size",
+  "reentrant_*: two threads of one process; the second thread's whole call runs at the k-th allocator entry (table installed through p_mem_set_vtable) of the first one, one query per k; real SHA-1 on the concrete names alpha / bravo",
   "lock_eintr_max2: sem_wait interrupted at a symbolic subset (<=2) of its invocations inside p_shm_lock; shm_names_*: see C06 names_len*_realkey",
   "allocator never fails (C18), EINTR only in lock_eintr_* (the rest: C19), printf empty"],
- "outside": ["kernel semantics themselves; real page protection (P_SHM_ACCESS_READONLY)", "pshm-sysv.c (not built on this platform)", "more than 2 processes, one handle per process, one name",
+ "outside": ["overlapping p_shm_new calls of two threads at allocator entries after the first key derivation (entries > 10: those are p_semaphore_new's, decided by C06 reentrant_sem_new_*); overlaps at points that are not allocator entries", "kernel semantics themselves; real page protection (P_SHM_ACCESS_READONLY)", "pshm-sysv.c (not built on this platform)", "more than 2 processes, one handle per process, one name",
              "preemption depth > 1 (A1 B1 A2 B2 interleavings)", "histories longer than the stated number of calls",
              "a p_shm_new that loses a first-open race may return NULL (it then holds nothing); only the handles handed out are required to be coherent",
              "unmapping / descriptor accounting (C20)"],
@@ -67,6 +68,18 @@ def lock_eintr(n=2):
     return Q("lock_eintr_max%d" % n, "harness/C07_lock_eintr.c", units=SHM_UNITS, models=KM, hdefs=pools(3) + ["EINTR_MAX=%d" % n], includes=REDIR,
              unwindset=dict(UW, **{"p_semaphore_acquire.0": n + 2}), timeout=600, funcs=["p_shm_lock", "p_shm_unlock", "p_semaphore_acquire", "p_semaphore_release"],
              bounds={"eintr_in_sem_wait": "symbolic subset, <= %d" % n, "other_process_holds_lock": "symbolic"})
+def reentrant(kind, at):
+    # real name handling + real SHA-1 key derivation; the other thread's whole call runs at the at-th allocator entry of the outer call
+    import C06
+    kn = ["sem_new", "shm_new", "shm_buffer_new", "key"][kind]
+    units = {0: C06.SEM_UNITS, 1: SHM_UNITS, 2: ["src/pshmbuffer.c"] + SHM_UNITS, 3: ["src/pstring.c", "src/pmem.c"]}[kind]
+    units = units + [u for u in C06.HASH_UNITS if u not in units]
+    return Q("reentrant_%s_at%d" % (kn, at), "harness/C07_reentrant.c", units=units,
+             models=["models/kernel_ipc.c", "models/alloc.c", "models/verif.c", "models/libc_stub.c"],
+             hdefs=["KIND=%d" % kind, "PREEMPT_AT=%d" % at, "VK_REAL_NAMES"] + (["VK_PAGE=16", "VK_NPAGES=2"] if kind == 2 else []),
+             includes=REDIR, unwind=130, unwindset=UW, timeout=600, flags=["--max-field-sensitivity-array-size", "256"],
+             funcs=["p_ipc_get_platform_key", "p_crypto_hash_new", "p_crypto_hash_update", "p_crypto_hash_get_string", "p_crypto_hash_free"],
+             bounds={"overlap": "other thread's whole call at allocator entry %d of the outer call (depth 1)" % at, "names": "alpha / bravo (concrete)"})
 def is_open(fid):
     return any(f["id"] == fid and f.get("status") == "open" for f in load_findings())
 def names(tier):
@@ -83,6 +96,9 @@ def queries(tier):
     # Q's open before P's k-th system call: 1 shm_open, 2 ftruncate, 3 mmap, 4 close, 5 sem_open.  Positions 3..5 are the
     # known first-open race: while it is open one demonstration query runs, once fixed all positions are ordinary queries
     qs += names(tier) + [leftover(), lock_eintr(2)]
+    # re-entrancy of the name -> key derivation: bare key function at each of its 7 allocator entries; p_shm_new at the entries of its first
+    # key derivation (entries 1..10; the lock semaphore's derivation is p_semaphore_new's: C06 reentrant_sem_new_*)
+    qs += [reentrant(3, k) for k in range(1, 8)] + [reentrant(1, k) for k in ([3, 5, 7, 9] if tier == "quick" else range(1, 11))]
     qs += [race(1, False), race(2, False)]
     if is_open("C07_first_open_race"):
         qs += [race(5, True)]
